@@ -13,6 +13,8 @@ type Engine struct {
 	P        *Program
 	CS       *Contracts
 	closures map[string]*FnVal
+	// names of parameters and locals recorded in the ledger, per function (rename resilience)
+	recorded map[string]FnNames
 	fnByKey  map[string]*ssa.Function
 	writes   map[*ssa.Function]map[string]HeapVar
 	writing  map[*ssa.Function]bool
